@@ -204,7 +204,7 @@ WITNESS_COUNTERS = ["refreshes_full_auth", "refreshes_unauthenticated", "refresh
                     "crashes", "failclosed_corrupt_tombstones", "failclosed_double_write_failure",
                     "failclosed_unreadable_tombstones", "restarts_with_recorded_revocation"]
 
-DIRECTED = ["Pend29Present", "Promote31", "PendAbort", "PendReadd", "Missing89Kept", "Missing91Gone", "Reappear", "RevokeFull",
+DIRECTED = ["Pend29Present", "Promote31", "PendAbort", "PendReadd", "Missing89Kept", "Missing91Gone", "MissingAfterLong", "Reappear", "RevokeFull",
             "RevokeOnly", "RevokeOnlyBait", "RevokeOnlyPend", "DoubleFail", "DoubleFailNoRev", "MarkerMigrated",
             "StaleConfig", "CrashBetween", "CrashBeforeWrites", "TombCorrupt", "StateCorrupt", "UnauthBait",
             "RevokeNoSelfSig", "CollidingRevoke",
